@@ -1785,6 +1785,58 @@ fn eval_image(case: &ImgCase) -> Bad {
     bad
 }
 
+/// Two views of ONE image object serialised back to back on one thread (whatever the serialiser keeps from one call
+/// to the next - a scratch buffer, a memo - must not leak into the second document): all ordered pairs of the
+/// non-empty windows of a 3x4 image, each second document deserialised and compared with its own window.
+fn eval_image_pairs() -> (u64, Bad) {
+    let (h, w) = (3usize, 4usize);
+    let base = Image::from_parts(base_data(h * w), Shape::from(Size::new(h, w)));
+    let mut windows = vec![];
+    for r0 in 0..h {
+        for r1 in r0 + 1..=h {
+            for c0 in 0..w {
+                for c1 in c0 + 1..=w {
+                    windows.push((r0, r1, c0, c1));
+                }
+            }
+        }
+    }
+    let mut bad: Bad = vec![];
+    let mut n = 0u64;
+    let views: Vec<Image> = windows.iter().map(|(r0, r1, c0, c1)| base.crop(*r0..*r1, *c0..*c1)).collect();
+    for (i, a) in views.iter().enumerate() {
+        for (j, b) in views.iter().enumerate() {
+            n += 1;
+            let r = catch(|| {
+                let _first = serde_json::to_string(a).map_err(|e| format!("serialize: {e}"))?;
+                let second = serde_json::to_string(b).map_err(|e| format!("serialize: {e}"))?;
+                serde_json::from_str::<Image>(&second).map_err(|e| format!("deserialize: {e}"))
+            });
+            let (r0, r1, c0, c1) = windows[j];
+            let mut want = vec![];
+            for r in r0..r1 {
+                for c in c0..c1 {
+                    want.push(pix(r * w + c));
+                }
+            }
+            let what = || format!("window {:?} of a 3x4 image serialised right after window {:?} of the same image object", windows[j], windows[i]);
+            match r {
+                Err(p) => bad.push((panic_key("image-pair", &p), format!("{}: {}", what(), panic_text(&p)))),
+                Ok(Err(e)) => bad.push(("image-pair:error".into(), format!("{}: {e}", what()))),
+                Ok(Ok(back)) => {
+                    if (back.height(), back.width()) != (r1 - r0, c1 - c0) || image_pixels(&back) != want {
+                        bad.push(("image-pair:second-document-differs".into(), format!("{}: deserialises to {}x{} {:?}, expected {}x{} {:?}", what(), back.height(), back.width(), image_pixels(&back), r1 - r0, c1 - c0, want)));
+                    }
+                }
+            }
+            if bad.len() > 3 {
+                return (n, bad);
+            }
+        }
+    }
+    (n, bad)
+}
+
 fn input_byte(i: usize) -> u8 {
     ((i * 37 + 11) & 255) as u8
 }
@@ -2009,6 +2061,12 @@ fn run_part1(ctx: &Ctx, viol: &Violations, samples: &Samples) -> Part1 {
             viol.add(k, format!("{}: {what}", c.json()), c.json());
         }
     });
+    let (pair_count, pair_bad) = eval_image_pairs();
+    for (k, what) in pair_bad {
+        viol.add(k, what, json!({"part": "image-pairs"}));
+    }
+    counts.insert("image_view_pairs_back_to_back", pair_count);
+    evals.fetch_add(pair_count, Ordering::Relaxed);
     counts.insert("image_views", cases.len() as u64);
     evals.fetch_add(cases.len() as u64, Ordering::Relaxed);
     samples.force(cases[cases.len() / 3].json());
@@ -2178,6 +2236,7 @@ pub fn replay(w: &Value) -> Result<(bool, String), String> {
             let wd: usize = w["w"].as_str().ok_or("w")?.parse().map_err(|_| "w")?;
             Ok(report_bad(eval_size(h, wd), format!("size {h}x{wd}")))
         }
+        "image-pairs" => Ok(report_bad(eval_image_pairs().1, "views of one image object serialised back to back (expected: every second document is its own window)".to_string())),
         "image" => {
             let c = ImgCase::from_json(w).ok_or("bad image case")?;
             Ok(report_bad(eval_image(&c), format!("image view {c:?} (expected: same size and pixels after serialise+deserialise)")))
